@@ -170,6 +170,7 @@ func c18(c *Ctx) {
 		fDis := lookupField(px.Pkg, "collector", "disableTargetInfo")
 		okW := true
 		var lockedLit *ast.FuncLit
+		var initCall *GNode
 		for _, a := range px.fieldAccesses(map[*types.Var]bool{fTI.Origin(): true, fDis.Origin(): true}) {
 			if !a.Write {
 				continue
@@ -177,11 +178,19 @@ func c18(c *Ctx) {
 			if px.freshLocal(a.F, a.Sel.X) {
 				continue
 			}
-			if px.Outer(a.F) != fn || a.F.Lit == nil || px.Use[a.F.Lit] != LitCalled {
+			// the initialisation unit: a literal called in place inside Collect, or a method of the collector that Collect calls
+			if px.Outer(a.F) == fn && a.F.Lit != nil && px.Use[a.F.Lit] == LitCalled {
+				lockedLit = a.F.Lit
+			} else if a.F.Lit == nil && a.F != fn && len(px.FG(fn).Match(callToDecl(info, a.F))) == 1 {
+				initCall = px.FG(fn).Match(callToDecl(info, a.F))[0]
+				// … holding the collector's mutex at the write
+				if !le.Held(a.F)[px.FG(a.F).NodeOf(a.Sel)][varKey(a.F.Recv())+resolvePath(px.Pkg, "collector", ".mu")] {
+					okW = false
+				}
+			} else {
 				okW = false
 				continue
 			}
-			lockedLit = a.F.Lit
 			// guarded by targetInfo == nil
 			g := px.FG(a.F)
 			d, _ := g.DominatedByEdges(g.NodeOf(a.Sel), func(e *GEdge) bool {
@@ -194,10 +203,13 @@ func c18(c *Ctx) {
 				okW = false
 			}
 		}
-		okR := lockedLit != nil
+		okR := lockedLit != nil || initCall != nil
 		if okR {
 			g := px.FG(fn)
-			lx := g.NodeOf(lockedLit)
+			lx := initCall
+			if lockedLit != nil {
+				lx = g.NodeOf(lockedLit)
+			}
 			for _, a := range px.fieldAccesses(map[*types.Var]bool{fTI.Origin(): true, fDis.Origin(): true}) {
 				if a.F == fn && !a.Write {
 					if d, _ := g.DominatedByNodes(g.NodeOf(a.Sel), map[*GNode]bool{lx: true}); !d {
@@ -231,7 +243,9 @@ func c18(c *Ctx) {
 	}
 	mt := c.Fn(px, "R3", "(*collector).metricType")
 	col := c.Fn(px, "R3", "(*collector).Collect")
-	a, b := typeCases(mt), typeCases(col)
+	// the dispatch may have been moved out of Collect into a helper it calls for every metric
+	colSwitch, _ := px.workFunc(col, func(n ast.Node) bool { _, ok := n.(*ast.TypeSwitchStmt); return ok })
+	a, b := typeCases(mt), typeCases(colSwitch)
 	c.Check(len(a) == 8 && strings.Join(a, ",") == strings.Join(b, ","), "R3", "prometheus|metricType vs Collect|same eight data types", at(px.M, px.Pkg.Syntax[0].Pos()), strings.Join(a, ","),
 		"metricType knows "+strings.Join(a, ",")+" but Collect dispatches "+strings.Join(b, ",")+": a type gets a family name but no samples, or is silently skipped")
 	if mt != nil {
